@@ -27,6 +27,7 @@ func init() {
 			m := in.mutexOf(c.L.R.(*IfaceV).V)
 			if !g.condWaiting {
 				m.writer = false
+				in.raceRelease(m)
 				c.waiters = append(c.waiters, g)
 				g.condWaiting, g.condSignalled = true, false
 				in.yieldNow = true
@@ -35,6 +36,8 @@ func init() {
 			if g.condSignalled && !m.writer && m.readers == 0 {
 				m.writer = true
 				g.condWaiting = false
+				in.raceAcquire(m)
+				in.raceAcquire(&m.readers)
 				return Value{}, true
 			}
 			return Value{}, false
@@ -69,6 +72,7 @@ func init() {
 			}
 			if s.cur+n <= s.size {
 				s.cur += n
+				in.raceAcquire(s)
 				return nilErr, true
 			}
 			return Value{}, false
@@ -76,6 +80,7 @@ func init() {
 		"(*golang.org/x/sync/semaphore.Weighted).Release": func(in *Interp, fr *Frame, a []Value) (Value, bool) {
 			s := in.side[a[0].R.(*Value)].(*semSt)
 			s.cur -= sextW(a[1].N, 64)
+			in.raceRelease(s)
 			return Value{}, true
 		},
 		"errors.New": func(in *Interp, fr *Frame, a []Value) (Value, bool) {
